@@ -191,6 +191,7 @@ func genC13(t *rapid.T) any {
 				kw := rapid.SampledFrom([]string{"PARALLEL JOIN", "PARALLEL LEFT JOIN", "PARALLEL RIGHT JOIN", "PARALLEL STRAIGHT_JOIN"}).Draw(t, "failkw")
 				bad := rapid.SampledFrom([]string{"x." + sc.k + " + y." + sc.t2c, "x." + sc.k + " > y." + sc.t2c + " AND x." + sc.s, "NOT x." + sc.v, "x." + sc.items + " LIKE y." + sc.t2c, "x." + sc.k + " < y." + sc.t2c + " AND (x." + sc.v + " + 1)"}).Draw(t, "failon")
 				sql = "SELECT * FROM t x " + kw + " t2 y ON " + bad
+				w.Unordered = true // should the ON clause evaluate after all, a PARALLEL join fixes no row order
 			}
 			names := []string{sc.k, sc.s, sc.v, sc.items, sc.p, sc.q, sc.t2c}
 			q := C13Q{SQL: sql, Wrapped: w.Wrapped, Unordered: w.Unordered}
